@@ -743,6 +743,31 @@ def ls_QScaleShift : LSpec :=
 def lSpecs : List LSpec :=
   [ls_QDense, ls_QConv1D, ls_QConv2D, ls_QConv2DTranspose, ls_QSimpleRNNCell, ls_QSimpleRNN, ls_QLSTMCell, ls_QLSTM, ls_QGRUCell, ls_QGRU, ls_QDepthwiseConv2D, ls_QSeparableConv1D, ls_QSeparableConv2D, ls_QActivation, ls_QAdaptiveActivation, ls_QBatchNormalization, ls_QConv2DBatchnorm, ls_QDepthwiseConv2DBatchnorm, ls_QAveragePooling2D, ls_QGlobalAveragePooling2D, ls_QScaleShift]
 
+/-- per layer class: the quantizer slots in the order `get_quantizers()` lists them (`self.quantizers`;
+    [] = the class has no `get_quantizers`), observed live by object identity -/
+def reportedSlots : List (String × List String) :=
+  [("QDense", ["kernel_quantizer", "bias_quantizer"]),
+   ("QConv1D", ["kernel_quantizer", "bias_quantizer"]),
+   ("QConv2D", ["kernel_quantizer", "bias_quantizer"]),
+   ("QConv2DTranspose", ["kernel_quantizer", "bias_quantizer"]),
+   ("QSimpleRNNCell", []),
+   ("QSimpleRNN", ["kernel_quantizer", "recurrent_quantizer", "bias_quantizer", "state_quantizer"]),
+   ("QLSTMCell", []),
+   ("QLSTM", ["kernel_quantizer", "recurrent_quantizer", "bias_quantizer", "state_quantizer"]),
+   ("QGRUCell", []),
+   ("QGRU", ["kernel_quantizer", "recurrent_quantizer", "bias_quantizer", "state_quantizer"]),
+   ("QDepthwiseConv2D", ["depthwise_quantizer", "bias_quantizer"]),
+   ("QSeparableConv1D", ["depthwise_quantizer", "pointwise_quantizer", "bias_quantizer"]),
+   ("QSeparableConv2D", ["depthwise_quantizer", "pointwise_quantizer", "bias_quantizer"]),
+   ("QActivation", []),
+   ("QAdaptiveActivation", []),
+   ("QBatchNormalization", ["gamma_quantizer", "beta_quantizer", "mean_quantizer", "variance_quantizer", "inverse_quantizer"]),
+   ("QConv2DBatchnorm", ["kernel_quantizer", "bias_quantizer"]),
+   ("QDepthwiseConv2DBatchnorm", ["depthwise_quantizer", "bias_quantizer"]),
+   ("QAveragePooling2D", ["average_quantizer"]),
+   ("QGlobalAveragePooling2D", ["average_quantizer"]),
+   ("QScaleShift", ["weight_quantizer", "bias_quantizer"])]
+
 /-- keys of `_add_supported_quantized_objects`, in insertion order -/
 def customObjects : List String :=
   ["QInitializer", "QDense", "QConv1D", "QConv2D", "QConv2DTranspose", "QSimpleRNNCell", "QSimpleRNN", "QLSTMCell", "QLSTM", "QGRUCell", "QGRU", "QBidirectional", "QDepthwiseConv2D", "QSeparableConv1D", "QSeparableConv2D", "QActivation", "QAdaptiveActivation", "QBatchNormalization", "Clip", "quantized_bits", "bernoulli", "stochastic_ternary", "ternary", "stochastic_binary", "binary", "quantized_relu", "quantized_ulaw", "quantized_tanh", "quantized_sigmoid", "quantized_po2", "quantized_relu_po2", "quantized_linear", "quantized_hswish", "QConv2DBatchnorm", "QDepthwiseConv2DBatchnorm", "QAveragePooling2D", "QGlobalAveragePooling2D", "QScaleShift"]
